@@ -23,10 +23,14 @@ package consensus
 
 // Property C05: a timestamp has a producer only if it is exactly the start of a slot of its tick's election, and the producer
 // is that slot's pillar - never the pillar of a neighbouring slot.
+//@ model electionManager electionAt map[int]int      // instant -> the election result of its tick
 //@ func electionManager.ElectionByTime(em, t) -> (e, err)
 //@   trusted
-//@   ensures err == nil ==> e != nil
+//@   ensures err == nil ==> e != nil && int(e) == em.electionAt[timenano(t)]
 //@   modifies nothing
+//@ spec electionOf(cs *consensus, t time.Time) *electionResult = ptr("*electionResult", cs.electionManager.electionAt[timenano(t)])
 //@ func consensus.GetMomentumProducer(cs, timestamp) -> (producer, err)
-//@   requires cs != nil
-//@   ensures-local[exactly-the-slot-that-starts-at-the-timestamp] err == nil ==> 0 <= rangeindex && rangeindex < len(election.Producers) && timenano(election.Producers[rangeindex].StartTime) == timenano(timestamp) && deref(producer) == election.Producers[rangeindex].Producer
+//@   requires cs != nil && cs.electionManager != nil
+//@   requires forall k int :: 0 <= k && k < len(electionOf(cs, timestamp).Producers) ==> electionOf(cs, timestamp).Producers[k] != nil
+//@   ensures[exactly-the-slot-that-starts-at-the-timestamp] err == nil ==> (exists k int :: 0 <= k && k < len(electionOf(cs, timestamp).Producers) && timenano(electionOf(cs, timestamp).Producers[k].StartTime) == timenano(timestamp) && deref(producer) == electionOf(cs, timestamp).Producers[k].Producer)
+//@   modifies nothing
